@@ -688,3 +688,58 @@ def lower_rules(ctx, rule):
     else:
         ctx.fail(rule, key, b.where(), "Text::lower no longer maps characters with char::to_lowercase",
                  {"witness": "non-ASCII capitals are not folded"})
+
+
+def per_word_stages_unconditional(ctx, rule, stages=("strip", "set_stem", "set_pos")):
+    """R15.n: Text::{strip, set_stem, set_pos} visit every word on every path (no fast path that leaves the words as an
+    earlier stage made them): after `strip` has shortened a word its stem must be recomputed — `stem <= len` depends on it —
+    and WordShape::set_stem assigns the stem on every path."""
+    tm = _text_methods(ctx)
+    for name in stages:
+        b = tm.get(name)
+        if b is None:
+            ctx.fail(rule, "every-word:%s" % name, "-", "Text::%s not found (fail closed)" % name)
+            continue
+        cfg = ctx.cfg(b)
+        sy = ctx.sym(b)
+        key = "every-word:%s" % name
+        # the loop (or consuming adaptor) over self.words that calls the word method
+        ok = False
+        for bi, t in b.calls():
+            if not (t.get("cn") or "").endswith("Iterator::next"):
+                continue
+            src, st = U.chain(sy.operand(t["args"][0]))
+            p = U.field_path(src)
+            if not (p and p[2] and p[2][-1] == "words") or [s_ for s_ in st if s_[0] not in ("iter", "iter_mut", "into_iter")]:
+                continue
+            h = cfg.inner_header(bi)
+            if h is None:
+                continue
+            calls_word = [x for x, t2 in b.calls() if (t2.get("rcn") or "").startswith("tokenization::word_shape::WordShape::")
+                          and cfg.in_natural_loop(x, h)]
+            tg = t.get("target")
+            sw = b.blocks[tg]["term"] if tg is not None else None
+            some_t = [x for v, x in sw["targets"] if v == 1] if sw is not None and sw["k"] == "switch" else []
+            if calls_word and some_t and cfg.every_path_passes(0, [h]) and \
+                    not any(cfg.path_exists(some_t[0], bi, avoid=calls_word) for _ in [0] if some_t[0] not in calls_word):
+                ok = True
+        if ok:
+            ctx.ok(rule, key, b.where(), "Text::%s visits every word on every path" % name, nontrivial=True)
+        else:
+            ctx.fail(rule, key, b.where(), "Text::%s has a path that does not visit every word (a fast path / early return): words keep "
+                     "what an earlier stage left" % name,
+                     {"witness": "language without stemmer, title '100%': the stem stays longer than the stripped word and the word "
+                                 "can never match"})
+    # WordShape::set_stem assigns `stem` on every path
+    for x in ctx.facts.fns():
+        if x.cn.endswith("WordShape::set_stem"):
+            sy = ctx.sym(x)
+            cfg = ctx.cfg(x)
+            asg = [bi for bi, si, st in x.iter_stmts() if st["k"] == "assign" and st["place"]["p"] and not x.blocks[bi]["cleanup"]
+                   and (U.field_path(sy.place(st["place"])) or (0, 0, [None]))[2][-1:] == ["stem"]]
+            asg += [bi for bi, t in x.calls() if t["dest"]["p"] and (U.field_path(sy.place(t["dest"])) or (0, 0, [None]))[2][-1:] == ["stem"]]
+            key = "stem-assigned"
+            if asg and cfg.every_path_passes(0, asg):
+                ctx.ok(rule, key, x.where(), "WordShape::set_stem assigns the stem on every path")
+            else:
+                ctx.fail(rule, key, x.where(), "WordShape::set_stem can return without assigning the stem")
